@@ -22,6 +22,7 @@ type c15Cell struct {
 	Deleters string `json:"deleters"` // SM | SY | SM+SY | SM+faulty | OF
 	NKeys    int    `json:"nkeys"`
 	Repeat   bool   `json:"repeat"`  // every AddLabels call is issued twice
+	Cumul    bool   `json:"cumul,omitempty"` // labels are added with a growing list: AddLabels(k,l1); AddLabels(k,l1,l2); ...
 	Reverse  bool   `json:"reverse"` // registration order reversed
 	Names    int    `json:"names"`   // cache names (2: keys alternate between names, no fault injection)
 	Shard    int    `json:"shard"`   // incidence structures are split over NShards cells
@@ -49,6 +50,10 @@ func c15Cells(tier string) []Cell {
 					cells = append(cells, Cell{ID: c15Cell{Mode: "seq", Deleters: d, NKeys: nkeys, Repeat: rep, Reverse: rev, Names: 1, Shard: sh, NShards: nsh}.id()})
 				}
 			}
+		}
+
+		for sh := 0; sh < nsh; sh++ {
+			cells = append(cells, Cell{ID: c15Cell{Mode: "seq", Deleters: d, NKeys: nkeys, Cumul: true, Names: 1, Shard: sh, NShards: nsh}.id()})
 		}
 
 		cells = append(cells, Cell{ID: c15Cell{Mode: "seq", Deleters: d, NKeys: nkeys, Names: 2, Shard: 0, NShards: 1}.id()})
@@ -237,28 +242,38 @@ func c15One(cc c15Cell, cs c15Case) (string, string, int, int) {
 		}
 	}
 
-	for _, i := range order {
-		for _, b := range e.caches[nameOf(i)] {
-			_ = b.Write(ctx, c15Key(i), i)
-		}
+	// populate writes every key and registers its labels (in the cell's registration style)
+	populate := func() {
+		for _, i := range order {
+			for _, b := range e.caches[nameOf(i)] {
+				_ = b.Write(ctx, c15Key(i), i)
+			}
 
-		if ls := labelsOf(i); len(ls) > 0 {
-			if cc.Reverse {
-				// one label per call, in reverse
-				for j := len(ls) - 1; j >= 0; j-- {
-					e.idx.AddLabels(nameOf(i), c15Key(i), ls[j])
+			if ls := labelsOf(i); len(ls) > 0 {
+				switch {
+				case cc.Cumul:
+					for j := 1; j <= len(ls); j++ {
+						e.idx.AddLabels(nameOf(i), c15Key(i), ls[:j]...)
+					}
+				case cc.Reverse:
+					// one label per call, in reverse
+					for j := len(ls) - 1; j >= 0; j-- {
+						e.idx.AddLabels(nameOf(i), c15Key(i), ls[j])
+					}
+				default:
+					e.idx.AddLabels(nameOf(i), c15Key(i), ls...)
 				}
-			} else {
-				e.idx.AddLabels(nameOf(i), c15Key(i), ls...)
+
+				if cc.Repeat {
+					e.idx.AddLabels(nameOf(i), c15Key(i), ls...)
+				}
 			}
 
-			if cc.Repeat {
-				e.idx.AddLabels(nameOf(i), c15Key(i), ls...)
-			}
+			ops++
 		}
-
-		ops++
 	}
+
+	populate()
 
 	selected := func(i int) bool {
 		for _, l := range labelsOf(i) {
@@ -331,6 +346,27 @@ func c15One(cc c15Cell, cs c15Case) (string, string, int, int) {
 			return "second-call", fmt.Sprintf("repeating the call returned (%d, %v, panic=%v), want (0, nil)", cnt2, err2, p2), ncalls, ops
 		}
 
+		// second round on the same index: the entries are built and labelled again, the same call must
+		// invalidate them again (the index must not remember anything that prevents re-labelling)
+		if cs.FailAt < 0 {
+			populate()
+
+			before2 := e.total()
+			cnt3, err3, p3 := call()
+
+			if p3 != nil || err3 != nil {
+				return "second-round", fmt.Sprintf("second round returned (%d, %v, panic=%v)", cnt3, err3, p3), ncalls, ops
+			}
+
+			if k, d := check("second round (entries re-written and re-labelled after a successful invalidation)"); k != "" {
+				return k + "-second-round", d, ncalls, ops
+			}
+
+			if removed := before2 - e.total(); cnt3 != removed {
+				return "count-second-round", fmt.Sprintf("second round returned count %d, entries actually removed %d", cnt3, removed), ncalls, ops
+			}
+		}
+
 		return "", "ok", ncalls, ops
 	}
 
@@ -399,7 +435,7 @@ func c15Seq(cc c15Cell, env *Env) CellResult {
 				seen[sig] = true
 				js, _ := json.Marshal(cs)
 				res.Violations = append(res.Violations, Violation{Signature: sig, Extra: js,
-					Detail: fmt.Sprintf("%s\n  incidence (key->labels): %s; InvalidateByLabels(%s); failing Delete call #%d; repeat=%v reverse=%v", detail, describeIncidence(cs.Incidence, cc.NKeys), strings.Join(cs.Args, ","), cs.FailAt, cc.Repeat, cc.Reverse)})
+					Detail: fmt.Sprintf("%s\n  incidence (key->labels): %s; InvalidateByLabels(%s); failing Delete call #%d; repeat=%v reverse=%v cumulative=%v", detail, describeIncidence(cs.Incidence, cc.NKeys), strings.Join(cs.Args, ","), cs.FailAt, cc.Repeat, cc.Reverse, cc.Cumul)})
 			}
 		} else {
 			res.Outcomes[fmt.Sprintf("%s/%d-labels", detail, len(cs.Args))]++
@@ -680,7 +716,7 @@ func init() {
 	Register(&Prop{
 		ID: "C15", Title: "Label invalidation is complete, precise and loses nothing on failure",
 		Cells: c15Cells, Run: c15Run,
-		Rule: "(seq) every key->label-subset incidence over 3 (quick) / 4 (thorough) keys x 3 labels, optionally with repeated labelling and reversed registration, x every ordered label argument list of length <=2 / <=3 (duplicates included) " +
+		Rule: "(seq) every key->label-subset incidence over 3 (quick) / 4 (thorough) keys x 3 labels, optionally with repeated labelling, reversed or cumulative (growing label list) registration, and a second round of re-writing, re-labelling and invalidating on the same index, x every ordered label argument list of length <=2 / <=3 (duplicates included) " +
 			"x deleters {ShardedMap, SyncMap, ShardedMapOf, ShardedMap+SyncMap, two ShardedMaps} x a Delete failure injected at EVERY call position of the fault-free run (plus none), followed by a retry with the fault cleared; " +
 			"(conc) 2-3 threads of AddLabels / AddCache / InvalidateByLabels on a shared index, all schedules within the bound, then a final sweep: every key labelled before or during the run must be removable, counts must add up",
 		Assumptions: []string{
